@@ -148,6 +148,13 @@ def k_args(run, case):
         guarded(run, case, fname, {"traj": A}, lambda: pandas_bridge.trajectory_to_df(A))
     elif fname == "df_to_trajectory":
         df = pandas_bridge.trajectory_to_df(A)
+        u = rng.random()
+        if u < .25:
+            df = df.iloc[::-1].copy()  # newest first
+        elif u < .5 and len(df) >= 2:
+            import pandas as pd
+            k = int(rng.integers(1, len(df)))
+            df = pd.concat([df.iloc[k:], df.iloc[:k]])  # later segment listed first
         guarded(run, case, fname, {"df": df}, lambda: pandas_bridge.df_to_trajectory(df))
     elif fname == "result_to_df":
         m = metrics.APE(metrics.PoseRelation.translation_part)
